@@ -421,7 +421,13 @@ class Request(request.Request):
             # isn't supposed to mess with it, so it should be what
             # the client actually sent.
             host_header = self._asgi_headers[b'host'].decode('latin1')
-            host, __ = parse_host(host_header)
+            try:
+                host, __ = parse_host(host_header)
+            except ValueError:
+                raise errors.HTTPInvalidHeader(
+                    'The value must be a valid host, optionally followed by a port number.',
+                    'Host',
+                )
         except KeyError:
             host, __ = self._asgi_server
 
@@ -508,7 +514,12 @@ class Request(request.Request):
                 self._cached_access_route = []
                 for hop in self.forwarded or ():
                     if hop.src is not None:
-                        host, __ = parse_host(hop.src)
+                        try:
+                            host, __ = parse_host(hop.src)
+                        except ValueError:
+                            # NOTE: RFC 7239 permits an obfuscated port (e.g.
+                            #   "192.0.2.43:_hidden"); only the host matters here.
+                            host = hop.src.rpartition(':')[0].strip('[]')
                         self._cached_access_route.append(host)
             elif b'x-forwarded-for' in headers:
                 addresses = headers[b'x-forwarded-for'].decode('latin1').split(',')
@@ -540,7 +551,13 @@ class Request(request.Request):
         try:
             host_header = self._asgi_headers[b'host'].decode('latin1')
             default_port = 443 if self._secure_scheme else 80
-            __, port = parse_host(host_header, default_port=default_port)
+            try:
+                __, port = parse_host(host_header, default_port=default_port)
+            except ValueError:
+                raise errors.HTTPInvalidHeader(
+                    'The value must be a valid host, optionally followed by a port number.',
+                    'Host',
+                )
         except KeyError:
             __, port = self._asgi_server
 
